@@ -169,6 +169,11 @@ func main() {
 		err = valuesMain(*prop, *tier, *seed, *out, *replay)
 	case "bind":
 		err = bindMain(*prop, *tier, *seed, *out, *replay)
+	case "pool":
+		debug.SetGCPercent(-1)
+		err = poolMain(*prop, *tier, *seed, *out, *replay)
+	case "poolstress":
+		err = poolStressMain(*prop, *tier, *seed, *out, *replay)
 	case "config":
 		debug.SetGCPercent(-1)
 		err = configMain(*prop, *tier, *seed, *out, *replay)
